@@ -3,6 +3,7 @@ C17 — Partial trees: summaries keep the root, excluded data is never misread.
 Tree-level statements (the view level is reads / writes by generalized index through these).
 -/
 import Rmk.Proofs.TreeLaws
+import Rmk.Proofs.PartialViews
 namespace Rmk.C17
 open Rmk
 
@@ -40,6 +41,42 @@ theorem write_agrees (H : Hash) (a b : Node) (h : Summ H a b) (p : List Bool) (v
 theorem write_expand_excluded_fails (H : Hash) (a : Node) (q r : List Bool) (b : Bool) (c : Chunk) (v : Node)
     (hg : getPath a q = some (.leaf c)) (hc : c ≠ zeroHash H (r.length + 1)) :
     setPath H true a (q ++ b :: r) v = none := setPath_expand_nonzero H a q r b c v hg hc
+
+/-! ### view level -/
+
+/-- A complete read of a view over a partial tree either fails (navigation into an excluded subtree)
+    or returns exactly what the complete tree returns: excluded data is never misread. -/
+theorem view_read (H : Hash) (t : Ty) (a b : Node) (h : Summ H a b) :
+    Impl.readVal H t a = none ∨ Impl.readVal H t a = Impl.readVal H t b :=
+  PartialViews.summ_readVal H t a b h
+
+/-- the same for serialisation -/
+theorem view_serialize (H : Hash) (t : Ty) (a b : Node) (h : Summ H a b) :
+    Impl.serTree H t a = none ∨ Impl.serTree H t a = Impl.serTree H t b :=
+  PartialViews.summ_serTree H t a b h
+
+/-- Every mutation of the public interface except `append` (which expands zero summaries), on a view
+    over a partial tree, either fails or gives the partial version of the result on the complete
+    tree — so the roots after the write are equal.  No hypothesis on the hash. -/
+theorem view_write (H : Hash) (t : Ty) (a b : Node) (op : Impl.Op) (h : Summ H a b)
+    (hop : ∀ v, op ≠ .append v) :
+    Impl.apply H t a op = none ∨ ∃ a' b', Impl.apply H t a op = some a' ∧
+      Impl.apply H t b op = some b' ∧ Summ H a' b' :=
+  PartialViews.summ_apply_partial H t a b op h hop
+
+/-- …and `append` too, under the explicit hypothesis that nothing but two zero hashes of height `d`
+    hashes to the zero hash of height `d+1` (implied by collision-freeness; without it the statement
+    is FALSE for a contrived hash: `PartialViews.append_counterexample`). -/
+theorem view_write_all (H : Hash) (hZ : PartialViews.ZeroInj H) (t : Ty) (a b : Node) (op : Impl.Op)
+    (h : Summ H a b) :
+    Impl.apply H t a op = none ∨ ∃ a' b', Impl.apply H t a op = some a' ∧
+      Impl.apply H t b op = some b' ∧ Summ H a' b' :=
+  PartialViews.summ_apply H hZ t a b op h
+
+/-- summarising further positions keeps the relation to the complete tree -/
+theorem summarize_more (H : Hash) (a a' b : Node) (p : List Bool)
+    (hs : summarizePath H a p = some a') (h : Summ H a b) : Summ H a' b :=
+  PartialViews.summarizePath_summ_of_summ H a a' b p hs h
 
 /-! Non-vacuity -/
 private def H0 : Hash := fun a b => a ++ b
